@@ -7,16 +7,16 @@ CONSTANTS
   LimitMode = "code"
   RunnableMode = "code"
   None = None
-  IntentSet = {"a1", "n1", "p1", "b1"}
+  IntentSet = {"a1", "a2", "n1", "p1", "b1"}
   BadSet = {"malformed", "control", "import_malformed"}
-  LimitSet = {0, 1, 2, 3}
+  LimitSet = {0, 1, 2}
   NoLimit = TRUE
   HeadSet = {"default", "missing"}
   EligSet = {"dormant", "admitted"}
   ReadSet = {"status", "head"}
   UseStop = TRUE
   Mode = "graph"
-  MaxRuns = 3
+  MaxRuns = 2
   MaxCalls = 0
   Export = TRUE
 VIEW MC_View
